@@ -4,9 +4,11 @@
 (* Decision function on the lexical evidence at the start of the input:    *)
 (*   bom   byte-order mark kind or "none"                                  *)
 (*   decl  XML declaration: "none" | "plain" (no encoding) | an encoding   *)
+(*         | "pi" (another processing instruction whose target starts      *)
+(*         with xml, e.g. xml-stylesheet: NOT a declaration)               *)
 (*   meta  charset of an HTML meta content-type element: "none" | encoding *)
 (*   dflt  the configured default encoding                                 *)
-(* Priority: BOM > XML declaration > meta > default.  XML iff the decoded  *)
+(* Priority: BOM > encoding named by the XML declaration > meta > default.  XML iff the decoded  *)
 (* text starts with an XML declaration.  Nothing of the BOM may reach the  *)
 (* decoded text.                                                           *)
 (***************************************************************************)
@@ -23,15 +25,14 @@ BomEncoding(b) ==
 
 Encoding(b, d, m, df) ==
   IF b # "none" THEN BomEncoding(b)
-  ELSE IF d \notin {"none", "plain"} THEN d
-  ELSE IF d = "plain" THEN df
-  ELSE IF m # "none" THEN m
+  ELSE IF d \notin {"none", "plain", "pi"} THEN d
+  ELSE IF m # "none" THEN m          \* also when the declaration names no encoding (XHTML with a meta element)
   ELSE df
 
-IsXml(d) == d # "none"
+IsXml(d) == d \notin {"none", "pi"}
 
 Init == /\ bom \in Boms \cup {"none"}
-        /\ decl \in {"none", "plain"} \cup Encodings
+        /\ decl \in {"none", "plain", "pi"} \cup Encodings
         /\ meta \in {"none"} \cup Encodings
         /\ dflt \in Encodings
         /\ docmode \in {"str-equal"}
@@ -41,7 +42,7 @@ Spec == Init /\ [][Next]_vars
 Decision == [encoding |-> Encoding(bom, decl, meta, dflt), xml |-> IsXml(decl)]
 
 \* --- the priority order, stated independently of the nested IF above -------
-AllD == {"none", "plain"} \cup Encodings
+AllD == {"none", "plain", "pi"} \cup Encodings
 AllM == {"none"} \cup Encodings
 ASSUME BomWins ==
   \A b \in Boms, d1 \in AllD, d2 \in AllD, m1 \in AllM, m2 \in AllM, f1 \in Encodings, f2 \in Encodings :
@@ -52,6 +53,8 @@ ASSUME DeclBeatsMeta ==
 ASSUME MetaBeatsDefault ==
   \A m \in Encodings, f \in Encodings : Encoding("none", "none", m, f) = m
 ASSUME DefaultLast ==
-  \A f \in Encodings : Encoding("none", "none", "none", f) = f /\ \A m \in AllM : Encoding("none", "plain", m, f) = f
-XmlIffDeclaration == Decision.xml <=> decl # "none"
+  \A f \in Encodings : Encoding("none", "none", "none", f) = f /\ Encoding("none", "plain", "none", f) = f
+ASSUME PlainDeclarationLeavesItToMeta ==
+  \A m \in Encodings, f \in Encodings : Encoding("none", "plain", m, f) = m
+XmlIffDeclaration == Decision.xml <=> decl \notin {"none", "pi"}
 =============================================================================
